@@ -1014,7 +1014,7 @@ def check_name_encoder(ctx, interp: Interp) -> None:
         if mn != "encode" and any(isinstance(c, ast.Call) and call_name(c) == "self." + mn for c in ast.walk(f)):
             gm = ctx.cfg(m)
             helper_tests += [(gm, t) for t in gm.ids(lambda n: n.kind == "test") if _tests_token(gm.node(t).ast)]
-    ctx.check(bool(val) or bool(helper_tests), "header-name/validated", q, "encode() no longer tests the name with _istoken")
+    ctx.need(val or helper_tests, "an _istoken test in encode() or a helper it calls")
     # (1) cache stores
     stores = [a for a in class_accesses(mod, cls, {cache_attr}, receivers={"self"}) if a.kind in ("setitem", "setdefault", "update", "augassign")]
     for a in stores:
